@@ -4,6 +4,7 @@ package main
 // contract from DESIGN.md section 6 and is listed in evidence when used.
 
 import (
+	"fmt"
 	"go/types"
 	"strings"
 
@@ -110,7 +111,15 @@ func init() {
 				p.envStep(st, pv.Arr)
 				return Scalar{p.readLE(st, pv.Arr, pv.Idx, w/8)}
 			}
-			return Scalar{B.Fresh("atomic.load", SBV(w))}
+			// an atomic word reached through an opaque pointer: volatile, except that while the data is
+			// private to the caller ($private) repeated loads of the same word agree
+			fresh := B.Fresh("atomic.load", SBV(w))
+			if g, ok := st.Ghost["private"]; ok && pv.Ref != nil && g.Sort == SBool {
+				key := fmt.Sprintf("atomicword:%d", w)
+				c := p.heapCell(st, key, SArr(SRef, SBV(w)))
+				return Scalar{Ite(g, Select(c, pv.Ref), fresh)}
+			}
+			return Scalar{fresh}
 		}
 	}
 	reg("(*sync/atomic.Uint32).Load", "volatile: returns an arbitrary value (exact little-endian read when the bytes are private to the caller, e.g. Parse)", atomicLoad(32))
@@ -130,6 +139,10 @@ func init() {
 			if pv.Kind == KElem && isByte(pv.ArrElem) {
 				p.envStep(st, pv.Arr)
 				p.writeLE(st, pv.Arr, pv.Idx, w/8, sTerm(args[1]))
+			} else if _, ok := st.Ghost["private"]; ok && pv.Ref != nil {
+				key := fmt.Sprintf("atomicword:%d", w)
+				c := p.heapCell(st, key, SArr(SRef, SBV(w)))
+				st.Heap[key] = Store(c, pv.Ref, sTerm(args[1]))
 			}
 			return nil
 		}
@@ -160,6 +173,10 @@ func init() {
 				p.writeLE(s2, pv.Arr, pv.Idx, w/8, sTerm(args[2]))
 				key := elemsKey(types.Typ[types.Uint8], "")
 				st.Heap[key] = Ite(ok, s2.Heap[key], p.bytesCell(st))
+			} else if _, okp := st.Ghost["private"]; okp && pv.Ref != nil {
+				key := fmt.Sprintf("atomicword:%d", w)
+				c := p.heapCell(st, key, SArr(SRef, SBV(w)))
+				st.Heap[key] = Store(c, pv.Ref, B.Fresh("cas.word", SBV(w)))
 			}
 			return Scalar{ok}
 		}
